@@ -16,7 +16,7 @@ pub const FLOORS: &[&str] = &[
     "two_loop_revisit", "removed_breakpoint_passed", "resume:continue", "resume:step", "resume:si",
     "resume:so", "loc:abs", "loc:label", "loc:pc", "break_before_first", "break_after_last",
     "break_doubled", "nondefault_origin", "trace_invariant_checked", "origin_below_statement_count", "pause_at_break_outside_image",
-    "reset_between_list_change_and_resume", "many_breakpoints",
+    "reset_between_list_change_and_resume", "many_breakpoints", "break_with_label", "break_with_label_after_last",
 ];
 
 struct Loopy {
@@ -345,7 +345,19 @@ fn placement_case(seed: u64, i: u64) -> CaseOut {
         let at = at.min(items.len());
         // never after `.end`
         let end = items.iter().position(|it| matches!(it, Item::End)).unwrap_or(items.len());
-        items.insert(at.min(end), Item::Break);
+        // a `.break` may stand where a label's statement would: `done .break` (the usual way to name the
+        // end of a program) marks the following word with both
+        let it = if rng.chance(1, 3) {
+            out.class(if at.min(end) == end || !items[at.min(end)..end].iter().any(|x| matches!(x, Item::Stmt { .. })) {
+                "break_with_label_after_last"
+            } else {
+                "break_with_label"
+            });
+            Item::LabelBreak(format!("{}{}", rng.s(&["fin_", "Stop_", "zq_brk", "END_OF_IT"]), items.len()))
+        } else {
+            Item::Break
+        };
+        items.insert(at.min(end), it);
     }
     let program = Program { items };
     let img = match encode(&program) {
@@ -367,6 +379,20 @@ fn placement_case(seed: u64, i: u64) -> CaseOut {
         });
     }
     session(&mut out, i, &text, stack, &cmds, seed ^ i, &built.input, &img.breaks, "placement");
+    if let Some(why) = out.inconclusive.take() {
+        if why.contains("not assembled (rejected)") {
+            // the reference accepts this text (it was just encoded): a declared breakpoint in a file that is
+            // not loaded pauses nothing
+            out.violate(
+                "C11/declared-breakpoint-not-loaded",
+                i,
+                "a source with this `.break` placement was refused, its declared breakpoints never pause anything".to_string(),
+                J::obj(vec![("source", J::s(&text)), ("stack_feature", J::B(stack))]),
+            );
+        } else {
+            out.inconclusive = Some(why);
+        }
+    }
     out
 }
 
